@@ -70,6 +70,97 @@ Definition copy_tb (m : Z) (tb : list frame) : option (list frame) :=
   end.
 
 (* ------------------------------------------------------------------ *)
+(* 1b. what else the copy reads from a live frame: its namespaces        *)
+
+(* A live frame's f_globals / f_locals are ordinary dicts: ANY key may be missing (code run by
+   exec(src, {}) / eval has no __name__, no __file__, no __loader__; only __builtins__ is added
+   by the interpreter) and a present key may hold anything.  A value is a str, None, or some
+   other object known by its repr. *)
+Inductive gval := GStr (s : str) | GNone | GOther (r : str).
+Definition gval_eqb (a b : gval) : bool :=
+  match a, b with
+  | GStr x, GStr y | GOther x, GOther y => str_eqb x y
+  | GNone, GNone => true
+  | _, _ => false
+  end.
+Definition ns := list (str * gval).
+Fixpoint ns_get (d : ns) (k : str) : option gval :=
+  match d with
+  | [] => None
+  | (k', v) :: r => if str_eqb k k' then Some v else ns_get r k
+  end.
+Definition ns_default (d : ns) (k : str) (v : gval) : gval :=
+  match ns_get d k with Some x => x | None => v end.
+Definition ns_eqb : ns -> ns -> bool := list_eqb (pair_eqb str_eqb gval_eqb).
+
+(* a node of the live traceback with the namespaces of its frame; [lf_fr] is what the rest of
+   the model calls the frame: (f_code.co_filename, f_code.co_name, tb_lineno) *)
+Record lframe := mk_lf { lf_fr : frame; lf_globals : ns; lf_locals : ns }.
+(* a node of the stand-in chain: the same triple, and the stand-in frame's f_globals / f_locals *)
+Record sframe := mk_sf { sf_fr : frame; sf_globals : ns; sf_locals : ns }.
+Definition sframe_eqb (a b : sframe) : bool :=
+  frame_eqb (sf_fr a) (sf_fr b) && ns_eqb (sf_globals a) (sf_globals b)
+  && ns_eqb (sf_locals a) (sf_locals b).
+
+Definition k_file : str := s2l "__file__".
+Definition k_name : str := s2l "__name__".
+Definition k_loader : str := s2l "__loader__".
+Definition k_hide : str := s2l "__traceback_hide__".
+Definition s_main : str := s2l "__main__".
+(* attribute / class-attribute names the proofs refer to *)
+Definition n_None : str := s2l "None".
+Definition n_f_globals : str := s2l "f_globals".
+Definition n_f_locals : str := s2l "f_locals".
+Definition n_f_code : str := s2l "f_code".
+Definition n_f_lineno : str := s2l "f_lineno".
+Definition n_tb_frame : str := s2l "tb_frame".
+Definition n_tb_lineno : str := s2l "tb_lineno".
+Definition n_tb_lasti : str := s2l "tb_lasti".
+Definition n_co_filename : str := s2l "co_filename".
+Definition n_co_name : str := s2l "co_name".
+Definition n_Frame : str := s2l "Frame".
+Definition n_Code : str := s2l "Code".
+
+(* _Frame(frame): f_globals = {"__file__": get("__file__", "__main__"), "__name__": get("__name__"),
+   "__loader__": None}; f_locals = {"__traceback_hide__": ..} iff the live frame has that local.
+   TOTAL: a missing key becomes the default, nothing raises. *)
+Definition copy_lframe (l : lframe) : sframe :=
+  mk_sf (lf_fr l)
+        [(k_file, ns_default (lf_globals l) k_file (GStr s_main));
+         (k_name, ns_default (lf_globals l) k_name GNone);
+         (k_loader, GNone)]
+        (match ns_get (lf_locals l) k_hide with Some v => [(k_hide, v)] | None => [] end).
+
+(* _Truncated().tb_frame: f_globals = {"__file__": "", "__name__": "", "__loader__": None};
+   the object has no f_locals (observed as empty) *)
+Definition marker_s : sframe :=
+  mk_sf marker [(k_file, GStr []); (k_name, GStr []); (k_loader, GNone)] [].
+
+Fixpoint copy_from_l (m d : Z) (f : lframe) (rest : list lframe) : list sframe :=
+  copy_lframe f :: match rest with
+                   | [] => []
+                   | g :: r => if d <=? m then copy_from_l m (d + 1) g r else [marker_s]
+                   end.
+Definition copy_ltb (m : Z) (tb : list lframe) : option (list sframe) :=
+  match tb with
+  | [] => None
+  | f :: r => Some (copy_from_l m 0 f r)
+  end.
+
+(* attributes every live frame / code / traceback object of the interpreter has (CPython 3.11+;
+   validated against dir() of real objects on every run: CaseSlots) *)
+Definition frame_slots : list str :=
+  map s2l ["f_back"; "f_builtins"; "f_code"; "f_globals"; "f_lasti"; "f_lineno"; "f_locals";
+           "f_trace"; "f_trace_lines"; "f_trace_opcodes"]%string.
+Definition code_slots : list str :=
+  map s2l ["co_argcount"; "co_cellvars"; "co_code"; "co_consts"; "co_exceptiontable";
+           "co_filename"; "co_firstlineno"; "co_flags"; "co_freevars"; "co_kwonlyargcount";
+           "co_lines"; "co_linetable"; "co_lnotab"; "co_name"; "co_names"; "co_nlocals";
+           "co_positions"; "co_posonlyargcount"; "co_qualname"; "co_stacksize";
+           "co_varnames"]%string.
+Definition tb_slots : list str := map s2l ["tb_frame"; "tb_lasti"; "tb_lineno"; "tb_next"]%string.
+
+(* ------------------------------------------------------------------ *)
 (* 2. values, repr                                                      *)
 
 Inductive pyarg :=
@@ -560,7 +651,12 @@ Inductive case :=
 | CaseMee (a b : pyarg) (oargs : list pyarg) (oattrs : dict)
 (* Worker.workloop over a script *)
 | CaseWL (tab : list str) (reclimit : Z) (maxtasks : option Z) (script : list req)
-         (env : list putres) (unser : list (Z * Z)) (os : list omsg) (oe : oending).
+         (env : list putres) (unser : list (Z * Z)) (os : list omsg) (oe : oending)
+(* ExceptionInfo from a live traceback whose frames come with their namespaces: the observed
+   stand-in chains (with the stand-in frames' f_globals / f_locals) after 0, 1, ... round trips *)
+| CaseNS (reclimit : Z) (live : list lframe) (obs : list (list sframe))
+(* public attribute names of a real frame / code / traceback object (dir()) *)
+| CaseSlots (fr co tb : list str).
 
 Definition env_of (l : list putres) (n : nat) : putres := nth n l PutOk.
 
@@ -583,6 +679,16 @@ Definition check_case_gen (fx : bool) (c : case) : Z :=
   | CaseWL tab rl mt script env unser os oe =>
       let (ms, e) := run_loop (default_max_frames rl) (env_of env) mt script 0 O in
       worst (cmp_msgs fx tab ms os) (cmp_ending e oe)
+  | CaseNS rl live obs =>
+      match copy_ltb (default_max_frames rl) live with
+      | None => 2
+      | Some c =>
+          if negb (forallb (fun o => tb_eqb (map sf_fr c) (map sf_fr o)) obs) then 2
+          else if negb (forallb (list_eqb sframe_eqb c) obs) then 1 else 0
+      end
+  | CaseSlots fr co tb =>
+      let sub := fun (m o : list str) => forallb (fun a => existsb (str_eqb a) o) m in
+      if sub frame_slots fr && sub code_slots co && sub tb_slots tb then 0 else 1
   end.
 Definition check_case : case -> Z := check_case_gen mee_repaired.
 
@@ -600,8 +706,22 @@ Definition monitor_case (c : case) : Z :=
                                                         (firstn (pred (List.length c)) lv)) then 4
                                    else 0) obs)
   | CaseMee _ _ _ _ => 0
-  | CaseWL _ _ _ _ _ unser os oe =>
-      monitor_worker (match oe with OCrashed => true | _ => false end) unser os
+  | CaseWL _ _ _ _ env unser os oe =>
+      let crashed := match oe with OCrashed => true | _ => false end in
+      (* nothing in the environment failed and yet the loop died: a task's outcome killed the
+         worker (the property: "instead of killing the worker or losing the job") *)
+      if crashed && forallb (fun r => match r with PutOk => true | _ => false end) env then 8
+      else monitor_worker crashed unser os
+  | CaseNS rl live obs =>
+      (* the stand-in chain names the live frames (prefix, then possibly the marker), within the bound *)
+      let lv := map lf_fr live in
+      let bound := default_max_frames rl + 3 in
+      first_nonzero (map (fun o => let c := map sf_fr o in
+                                   if Z.of_nat (List.length c) >? bound then 5
+                                   else if negb (tb_eqb (firstn (pred (List.length c)) c)
+                                                        (firstn (pred (List.length c)) lv)) then 4
+                                   else 0) obs)
+  | CaseSlots _ _ _ => 0
   end.
 
 (* what props/C12.py evaluates: correspondence code + 10 * monitor code *)
